@@ -44,8 +44,10 @@ contract('parso.python.tokenize._close_fstring_if_necessary',
 class_fields('FStringNode', last_string_start_pos='opt:pos')
 contract('parso.python.tokenize.FStringNode.allow_multiline', params={'self': 'ref:FStringNode'}, returns='bool',
          ensures=['result == (len(self.quote) == 3)'], props=['C01'])
+# (the real result is False or the int format_spec_count; only its truth value is used, which is what the bool models)
 contract('parso.python.tokenize.FStringNode.is_in_format_spec', params={'self': 'ref:FStringNode'}, returns='bool',
-         trusted=True, ensures=[], lists=[], note='only its truth value selects a pattern; any result is allowed for')
+         ensures=['result == (not (self.parentheses_count > self.format_spec_count) and self.format_spec_count != 0)'],
+         props=['C09'])
 
 QUOTES_KNOWN = ('forall(lambda k: implies(0 <= k and k < len(fstring_stack), fstring_stack[k] is not None and '
                 'fstring_stack[k].quote in endpats and endpats[fstring_stack[k].quote] is not None and '
